@@ -88,3 +88,27 @@ def splice(ix, paths, want, rounds=3, min_paths=1):
         if not changed:
             break
     return work
+
+
+def sign_tests(ix, conds):
+    """canonical sign tests among branch decisions: [(kind, X, outcome)] with kind in is_negative / is_positive / is_zero
+    and X the signed value tested.  Besides the predicate calls this reads a branch on the raw sign flag
+    (`x.negative`, e.g. after destructuring `Integer { value, negative }`) as is_negative(x) and a zero test of the raw
+    magnitude (`x.value.is_zero()`) as is_zero(x)."""
+    out = []
+    for c in conds:
+        at, o = c[0], c[1]
+        if o not in (True, False):
+            continue
+        a = at
+        neg = False
+        while tag(a) == "op" and payload(a)[0] == "not" and kids(a):
+            a, neg = kids(a)[0], not neg
+        o2 = (not o) if neg else o
+        if tag(a) == "call" and kids(a) and str(payload(a)[0]).endswith(("Integer::is_negative", "Integer::is_positive", "Integer::is_zero")):
+            out.append((str(payload(a)[0]).split("::")[-1], kids(a)[0], o2))
+        elif tag(a) == "field" and payload(a)[0] == "negative":
+            out.append(("is_negative", kids(a)[0], o2))
+        elif tag(a) == "op" and payload(a)[0] == "is_zero" and kids(a) and tag(kids(a)[0]) == "field" and payload(kids(a)[0])[0] == "value":
+            out.append(("is_zero", kids(kids(a)[0])[0], o2))
+    return out
